@@ -62,9 +62,14 @@ func runSolver(ctx context.Context, sd solverDef, query string, timeoutSec, seed
 	err := cmd.Run()
 	ms := time.Since(t0).Milliseconds()
 	text := out.String()
-	first := strings.TrimSpace(text)
-	if i := strings.Index(first, "\n"); i >= 0 {
-		first = strings.TrimSpace(first[:i])
+	first := ""
+	for _, ln := range strings.Split(text, "\n") {
+		ln = strings.TrimSpace(ln)
+		if ln == "" || strings.HasPrefix(ln, "WARNING") {
+			continue
+		}
+		first = ln
+		break
 	}
 	so := solveOut{solver: sd.name, output: text, ms: ms}
 	switch first {
